@@ -351,6 +351,15 @@ class Ctx:
             }, no_input=True)
         cov = self.cov
         cov["distinct_nontrivial"] = len(self._distinct)
+        # schema hygiene: `exhaustive` is a boolean, counts are integers, samples is a non-empty list
+        if "exhaustive" in cov and not isinstance(cov["exhaustive"], bool):
+            cov["exhaustive_note"] = str(cov["exhaustive"])
+            cov["exhaustive"] = False
+        for k in ("states", "transitions", "programs", "disagreements_checked"):
+            if k in cov and not isinstance(cov[k], int):
+                cov[k + "_note"] = str(cov.pop(k))
+        if not cov["samples"]:
+            cov["samples"] = ["(no sample recorded by this run)"]
         cov["obligations"] = props["obligations"]
         cov["discharged"] = props["discharged"]
         cov["theorems"] = props["theorems"]
